@@ -212,6 +212,21 @@ func lean(e ast.Expr, subst map[string]string) string {
 			return "(!" + lean(x.X, subst) + ")"
 		case token.SUB:
 			return "(-" + lean(x.X, subst) + ")"
+		case token.XOR: // ^x, bitwise complement of an unsigned 64-bit value
+			if subst["#bits"] == "u64" {
+				return "(Z.Bits.not64 " + lean(x.X, subst) + ")"
+			}
+		}
+	case *ast.CallExpr:
+		// integer conversions, only in "#bits" mode: values are Ints, uint64(x) is x mod 2^64 and
+		// int64(x) / int(x) the signed 64-bit reading
+		if id, ok := x.Fun.(*ast.Ident); ok && len(x.Args) == 1 && subst["#bits"] == "u64" {
+			switch id.Name {
+			case "uint64":
+				return "(Z.Bits.u64 " + lean(x.Args[0], subst) + ")"
+			case "int64", "int":
+				return "(Z.Bits.i64 " + lean(x.Args[0], subst) + ")"
+			}
 		}
 	case *ast.BinaryExpr:
 		a, b := lean(x.X, subst), lean(x.Y, subst)
@@ -242,6 +257,20 @@ func lean(e ast.Expr, subst map[string]string) string {
 			return "(decide (" + a + " > " + b + "))"
 		case token.GEQ:
 			return "(decide (" + a + " ≥ " + b + "))"
+		}
+		// bit operators, only in "#bits" mode (the caller asserts that the operands are unsigned 64-bit values
+		// or non-negative ints; results are truncated to 64 bits where Go truncates)
+		if subst["#bits"] == "u64" {
+			switch x.Op {
+			case token.OR:
+				return "(Z.Bits.or64 " + a + " " + b + ")"
+			case token.AND:
+				return "(Z.Bits.and64 " + a + " " + b + ")"
+			case token.SHL:
+				return "(Z.Bits.shl64 " + a + " " + b + ")"
+			case token.SHR:
+				return "(Z.Bits.shr64 " + a + " " + b + ")"
+			}
 		}
 	}
 	fail("cannot render %q (add it to the substitution table or the printer)", src(e))
